@@ -6,12 +6,14 @@ Two layers of the model:
     `.replace`), `listTags`, `taggedKeys` over every heap and every tag hierarchy `sub`;
   * ArgStore layer (`Model/ArgStore.lean`): `add_tag`, `remove_tag`, `clear_tags` on one
     Buildable, with the history log.
-The survival of tags under copy / cast / serialization / diff application and the expansion and
-build of `TaggedValue` are carried by the correspondence check (they go through C07/C09/C10's
-machinery in the code); the theorems here are about selection and tag edits.
+Survival of tags under copies / casts and under diff application is proved through the models
+of C07 and C10; survival under serialization and the expansion and build of `TaggedValue` are
+carried by the correspondence check and the oracle.
 -/
 import FiddleModel.Lemmas.SelectL
 import FiddleModel.Lemmas.History
+import FiddleModel.Lemmas.CopyL
+import FiddleModel.Lemmas.DiffMain
 
 namespace Fiddle
 
@@ -163,6 +165,27 @@ theorem C14_clear_tags (s : Sig) (c c' : Cfg) (k : Key) (h : c.clearTags s k = .
     intro k' hne
     simp only [log_tags]
     exact Dict.get?_set_other _ _ _ _ hne
+
+/-! ## Tags survive transformations (through the models of C07 and C10) -/
+
+/-- Deep copies (deepcopy, pickle round trip, deepcopy_with) carry every tag of every node. -/
+theorem C14_tags_survive_deepcopy (h : Heap) (i : Nat) (o : GObj) (ho : h[i]? = some o) :
+    ∃ o', (h.deepcopy)[i + h.length]? = some o' ∧ o'.tags = o.tags := by
+  refine ⟨shiftObj h.length o, by rw [deepcopy_copy, ho]; rfl, rfl⟩
+
+/-- Shallow copies and casts (copy, copy_with, cast) carry the tags of the copied node. -/
+theorem C14_tags_survive_shallow_copy (h : Heap) (i : Nat) (bk : Option String) (o : GObj)
+    (ho : h[i]? = some o) :
+    ∃ o', (h.shallowCopy i bk)[h.length]? = some o' ∧ o'.tags = o.tags :=
+  ⟨_, shallowCopy_new h i bk o ho, rfl⟩
+
+/-- Applying `build_diff(old, new)` gives every argument exactly the tag set it has in `new`. -/
+theorem C14_tags_after_apply_diff (sg : Diff.Sigs) (old new : Diff.Flat) (ho : old.Valid sg)
+    (hn : new.Valid sg) :
+    ∃ r, Diff.applyPhases sg ["DeleteValue", "RemoveTag", "ModifyValue", "SetValue", "AddTag"]
+        (Diff.flatDiff old new) old = .ok r ∧ ∀ n t, t ∈ r.tagsOf n ↔ t ∈ new.tagsOf n := by
+  obtain ⟨r, hr, _, _, ht⟩ := Diff.flat_roundtrip sg old new ho hn
+  exact ⟨r, hr, ht⟩
 
 /-! ## Non-vacuity -/
 
